@@ -73,4 +73,36 @@ theorem reply_leaves_on_ingress_link (mac : MacFn) (net : Net) (now src a r i : 
       run mac net now a src (fuelFor rc) f.nbr g.owner (.ext f.nbrIf) rc [(a, i), (f.nbr, f.nbrIf)] := by
   simp [followReply, hf, hg]
 
+/-- **Peering paths, intermediate AS of the up segment.**  On a Peer-flagged segment only the hop
+    next to the peering link is a *peering hop*; an AS further from the peering link (neither source nor peering AS)
+    that answers a packet received over an external link must still XOR its hop MAC into the SegID
+    of the reversed (now construction-direction) segment before sending the answer back: the guard
+    is `determinePeer` of the current hop, not the segment-wide `Peer` flag.  (A seeded change that
+    used `infoField.Peer` instead is caught by the tie on exactly this shape: the engine's fixed
+    peering world produces up segments of 3 hops in every run.) -/
+theorem scmp_peer_segment_intermediate (seg ts : Nat) (done : List Hop) (h t0 : Hop)
+    (todo : List Hop) (sD : Seg) :
+    scmpPrepare ⟨[], ⟨false, true, seg, ts⟩, done, h, t0 :: todo, [sD]⟩ true =
+      (⟨[revSeg sD], ⟨true, true, Scion.SegID.updateSegID seg (pfx h.mac), ts⟩,
+        (t0 :: todo).reverse, h, done.reverse, []⟩ : Cursor).incPath := by
+  simp [scmpPrepare, reverseCursor, determinePeer, flipInfo, Cursor.isXover, egUpd]
+
+/-- the peering case of `scmp_reply_delivered`, stated (not proved: the peering-hop router step is
+    not yet part of the run lemmas; tied and checked by the engine on every run): on a peering path
+    (up segment, peering link, down segment — each with any number of hops) with an expired hop at
+    any AS other than the source, the SCMP answer is delivered in the source AS. -/
+def scmp_reply_delivered_peering : Prop :=
+  ∀ (mac : MacFn) (net : Net) (now : Nat) (eu ed : Edge) (src dst : Nat) (c c' : Cursor)
+    (a r : Nat) (arr : Arrival) (o : Out) (tr : List (Nat × Nat)) (rc : Cursor),
+    WFNet net → AllUp net → eu.peer.isSome → ed.peer.isSome →
+    Joinable mac net [eu, ed] src dst → pathOf [eu, ed] = some c → Unexpired now c →
+    -- c' is c with the expiry of one hop field changed to an expired value
+    (toFlat c').infos = (toFlat c).infos → (toFlat c').segLens = (toFlat c).segLens →
+    (toFlat c').currHF = 0 → (toFlat c').currINF = 0 →
+    (∃ k : Nat, ∀ j : Nat, j ≠ k → (toFlat c').hops[j]? = (toFlat c).hops[j]?) →
+    (∀ j : Nat, ∀ h h', (toFlat c').hops[j]? = some h' → (toFlat c).hops[j]? = some h →
+        h' = { h with exp := h'.exp }) →
+    send mac net now src dst c' = .stopped a r arr o tr → a ≠ src → replyOf o arr = some rc →
+    ∃ trr cr, followReply mac net now src a r arr rc = .delivered src trr cr
+
 end Scion.C10
